@@ -19,8 +19,17 @@ STANDINS = r'''
 // ---------- trusted stand-ins for the anemo types the layer sees ----------
 pub struct Bytes { pub v: Vec<u8> }
 // anemo::Request<Bytes>: `sender` is the authenticated PeerId the network attached (extensions().get::<PeerId>())
-pub struct Request<T> { pub sender: Option<PeerId>, pub route: Seq<char>, pub body: T }
+// local metadata of a request (http::Extensions): an opaque type-keyed map; what it holds besides the sender is unknown to the layer
+pub struct Extensions { pub m: Ghost<Map<int, int>> }
+impl Extensions {
+    #[verifier::external_body] pub fn get<X>(&self) -> (r: Option<&X>) { unimplemented!() }
+    #[verifier::external_body] pub fn insert<X>(&mut self, v: X) -> (r: Option<X>) { unimplemented!() }
+    #[verifier::external_body] pub fn is_empty(&self) -> (r: bool) { unimplemented!() }
+}
+pub struct Request<T> { pub sender: Option<PeerId>, pub route: Seq<char>, pub body: T, pub ext: Extensions }
 impl<T> Request<T> {
+    #[verifier::external_body] pub fn extensions(&self) -> (r: &Extensions) ensures *r == self.ext { unimplemented!() }
+    #[verifier::external_body] pub fn extensions_mut(&mut self) -> (r: &mut Extensions) ensures *r == old(self).ext, final(self).ext == *final(r), final(self).sender == old(self).sender, final(self).route == old(self).route, final(self).body == old(self).body { unimplemented!() }
     #[verifier::external_body]
     pub fn peer_id(&self) -> (r: Option<&PeerId>) ensures r is Some <==> self.sender is Some, r is Some ==> *r->Some_0 == self.sender->Some_0 { unimplemented!() }
 }
